@@ -48,6 +48,27 @@ class C03(core.Prop):
         return {'examples': rx.gen_examples(rng), 'opts': rx.gen_opts(rng), 'size': rx.gen_size(rng),
                 'seed': rng.choice([None, None, 1, 7, 12345]), 'form': rng.choice(['list', 'list', 'dict', 'series'])}
 
+    # correspondence: the Lean pipeline against rexpy.extract, for cases where no sampling happens
+    def _nosampling(self, case):
+        if not case['size']:
+            return True
+        kept = set(rx.kept_examples(case['examples'], case['opts']))
+        return len(kept) <= case['size']['do_all']
+
+    def model_ops(self, case):
+        if not self._nosampling(case) or any('\x00' in (s or '') for s in case['examples']):
+            return []
+        return [rx.model_extract_op(case['examples'], case['opts'], 'dict' if case['form'] == 'dict' else 'list')]
+
+    def impl_outputs(self, case):
+        res, exc, _, _ = rx.run_extract(case['examples'], case['opts'], case['size'], case['seed'], case['form'])
+        if exc is not None:
+            return [{'exc': type(exc).__name__}]
+        return [{'rex': list(res)}]
+
+    def canon_model(self, case, outs):
+        return [{'rex': o['ok']['rex']} if 'ok' in o else {'exc': o.get('exc')} for o in outs]
+
     def nontrivial_key(self, case):
         for k in case['opts']:
             self.count('opt_' + k)
